@@ -42,7 +42,9 @@ func checkC08(c *Ctx) {
 	c09FlatInvariant(c, p, "C08/R9")
 	c08ValueAccess(c, p)
 	// R11: the extractor constructors: functions of benchproc that return an extractor
-	var ctors []*ssa.Function
+	ctors := extractorCtors(p)
+	var ctorsOld []*ssa.Function
+	_ = ctorsOld
 	extT := p.Named("benchproc", "extractor")
 	for _, fn := range p.Funcs("benchproc") {
 		if fn.Parent() != nil || extT == nil {
@@ -51,7 +53,7 @@ func checkC08(c *Ctx) {
 		res := fn.Signature.Results()
 		for i := 0; i < res.Len(); i++ {
 			if types.Identical(res.At(i).Type(), extT) {
-				ctors = append(ctors, fn)
+				ctorsOld = append(ctorsOld, fn)
 				break
 			}
 		}
@@ -1399,4 +1401,23 @@ func c08Verbatim(c *Ctx, p *Prog) {
 	}
 	visit(mp)
 	c.Floor(R, "values interned by the projection functions", n, 3)
+}
+
+// extractorCtors: the functions of benchproc that return an extractor.
+func extractorCtors(p *Prog) []*ssa.Function {
+	var ctors []*ssa.Function
+	extT := p.Named("benchproc", "extractor")
+	for _, fn := range p.Funcs("benchproc") {
+		if fn.Parent() != nil || extT == nil {
+			continue
+		}
+		res := fn.Signature.Results()
+		for i := 0; i < res.Len(); i++ {
+			if types.Identical(res.At(i).Type(), extT) {
+				ctors = append(ctors, fn)
+				break
+			}
+		}
+	}
+	return ctors
 }
